@@ -229,3 +229,32 @@ def hdmx(num_glyphs, rng):
 def ltsh(num_glyphs, rng):
     """LTSH: the ppem from which each glyph scales linearly."""
     return struct.pack(">HH", 0, num_glyphs) + bytes(rng.choice([1, 1, 9, 12, 50, 255]) for _ in range(num_glyphs))
+
+
+def post2(post, num_glyphs, rng):
+    """A format 2.0 'post' table for a TrueType font as name-conscious (and careless) tools write them:
+    standard Macintosh names by index, own names as Pascal strings, two glyphs sharing one name, and an
+    own name that is the empty string. Header fields are taken from the font's own post table."""
+    if len(post) < 32 or num_glyphs < 4:
+        return None
+    hdr = struct.pack(">L", 0x00020000) + post[4:32]
+    idx = [0]
+    names = []
+    used_std = {0}
+    for g in range(1, num_glyphs):
+        q = rng.random()
+        if q < 0.3:
+            k = rng.randrange(1, 258)
+            if k not in used_std:
+                used_std.add(k)
+                idx.append(k)
+                continue
+        if names and q > 0.93:
+            idx.append(258 + rng.randrange(len(names)))  # a name already used by another glyph
+            continue
+        names.append("n%03d%s" % (g, rng.choice(["", ".alt", "_x", ".sc"])))
+        idx.append(258 + len(names) - 1)
+    if names and rng.random() < 0.6:
+        names[rng.randrange(len(names))] = ""  # an empty Pascal string
+    out = hdr + struct.pack(">H", num_glyphs) + b"".join(struct.pack(">H", i) for i in idx)
+    return out + b"".join(bytes([len(n)]) + n.encode("ascii") for n in names)
